@@ -184,9 +184,9 @@ def corpus_cases(scratch):
         ('S5-empty-file', {MAIN: ''}, 2, '=cpe-all'),
         ('S5-null-root', {MAIN: '~\n'}, 2, '=cpe-all'),
         ('S7-int-key-root-v2', {MAIN: "version: '2.2'\n1: 2\n"}, 2, None),
-        ('S7-int-key-env', {MAIN: T3 + DST1 + '  environment: {1: a}\n'}, 3, 'S7-non-string-key-TypeError'),
-        ('S7-yaml11-bool-key', {MAIN: T3 + DST1 + '  environment: {no: 1}\n'}, 3, 'S7-non-string-key-TypeError'),
-        ('S7-int-key-dsts', {MAIN: T3 + '    data-stream-types: {1: {}}\n'}, 3, 'S7-non-string-key-TypeError'),
+        ('S7-int-key-env', {MAIN: T3 + DST1 + '  environment: {1: a}\n'}, 3, '=cpe'),
+        ('S7-yaml11-bool-key', {MAIN: T3 + DST1 + '  environment: {no: 1}\n'}, 3, '=cpe'),
+        ('S7-int-key-dsts', {MAIN: T3 + '    data-stream-types: {1: {}}\n'}, 3, '=cpe'),
         ('S4-dynamic-array-no-element', {MAIN: H + mini3 + '                - a: {field-type: {class: dynamic-array}}\n'}, 3,
          '=cpe'),
         ('S4-dynamic-array-element-class-map',
@@ -210,91 +210,94 @@ def corpus_cases(scratch):
         ('S6-beginning-timestamp-no-clock',
          {MAIN: T3 + '    data-stream-types:\n      d:\n        $features:\n'
                      '          packet: {beginning-timestamp-field-type: true}\n        event-record-types:\n          e: ' + PL + '\n'}, 3,
-         'S6-timestamp-feature-without-clock-does-not-compile'),
+         '=cpe'),
         ('S6-er-timestamp-no-clock',
          {MAIN: T3 + '    data-stream-types:\n      d:\n        $features:\n'
                      '          event-record: {timestamp-field-type: true}\n        event-record-types:\n          e: ' + PL + '\n'}, 3,
-         'S6-timestamp-feature-without-clock-does-not-compile'),
+         '=cpe'),
         ('uuid-feature-without-uuid',
          {MAIN: T3 + '    $features: {uuid-field-type: true}\n    data-stream-types: {d: {event-record-types: {e: ' + PL + '}}}\n'}, 3,
-         'NEW-uuid-feature-without-uuid-does-not-compile'),
+         '=cpe'),
         ('huge-length', {MAIN: H + mini3 + '                - a: {field-type: {class: static-array, length: %d, '
                                'element-field-type: {class: uint, size: 8}}}\n' % (2 ** 64)}, 3,
          'NEW-unbounded-integer-property-does-not-compile'),
         ('huge-alignment', {MAIN: H + mini3 + '                - a: {field-type: {class: uint, size: 8, alignment: %d}}\n' % (2 ** 64)}, 3,
          'NEW-unbounded-integer-property-does-not-compile'),
         ('enum-mappings-null', {MAIN: H + mini3 + '                - a: {field-type: {class: uenum, size: 8, mappings: null}}\n'}, 3,
-         'NEW-KeyError-_create_enum_ft'),
+         '=cpe'),
+        ('S8-member-field-type-bool',
+         {MAIN: T3 + '    $field-type-aliases: {u: {class: uint, size: 8}}\n    data-stream-types: {d: {event-record-types: {e: '
+                     '{payload-field-type: {class: struct, members: [{a: {field-type: true}}]}}}}}\n'}, 3, 'S8-_resolve_ft_alias'),
         ('S8-root-key-required', {MAIN: H + 'required: 1\n' + mini3 + '                - a: {field-type: {class: str}}\n'}, 3,
-         'S8-schema-misplaced-required'),
-        ('S8-trace-type-key-required', {MAIN: T3 + '    required: 1\n' + DST1}, 3, 'S8-schema-misplaced-required'),
-        ('S8-trace-without-type', {MAIN: H + 'trace: {}\n'}, 3, 'S8-_trace_type_node'),
-        ('S8-aliases-without-dsts', {MAIN: T3 + '    $field-type-aliases: {}\n'}, 3, 'S8-_normalize_struct_ft_member_nodes'),
+         '=cpe'),
+        ('S8-trace-type-key-required', {MAIN: T3 + '    required: 1\n' + DST1}, 3, '=cpe'),
+        ('S8-trace-without-type', {MAIN: H + 'trace: {}\n'}, 3, '=cpe'),
+        ('S8-aliases-without-dsts', {MAIN: T3 + '    $field-type-aliases: {}\n'}, 3, '=cpe'),
         ('S8-empty-member-entry',
          {MAIN: T3 + '    $field-type-aliases: {}\n    data-stream-types:\n      d:\n'
                      '        packet-context-field-type-extra-members: [{}]\n        event-record-types: {e: {}}\n'}, 3,
-         'S8-normalize_members_node'),
+         '=cpe'),
         ('S8-member-entry-scalar',
          {MAIN: T3 + '    $field-type-aliases: {}\n    data-stream-types:\n      d:\n'
                      '        packet-context-field-type-extra-members: [5]\n        event-record-types: {e: {}}\n'}, 3, None),
         ('S8-member-value-int',
          {MAIN: T3 + '    $field-type-aliases: {}\n    data-stream-types:\n      d:\n'
                      '        packet-context-field-type-extra-members: [{a: 5}]\n        event-record-types: {e: {}}\n'}, 3,
-         'S8-resolve_ft_alias_from'),
+         '=cpe'),
         ('S8-member-inherit-int',
          {MAIN: T3 + '    $field-type-aliases: {}\n    data-stream-types:\n      d:\n'
                      '        packet-context-field-type-extra-members: [{a: {field-type: {$inherit: 5}}}]\n'
-                     '        event-record-types: {e: {}}\n'}, 3, 'S8-_resolve_ft_alias'),
+                     '        event-record-types: {e: {}}\n'}, 3, '=cpe'),
         ('S8-member-members-int',
          {MAIN: T3 + '    $field-type-aliases: {}\n    data-stream-types:\n      d:\n'
                      '        packet-context-field-type-extra-members: [{a: {field-type: {class: struct, members: 5}}}]\n'
-                     '        event-record-types: {e: {}}\n'}, 3, 'S8-normalize_members_node'),
+                     '        event-record-types: {e: {}}\n'}, 3, '=cpe'),
         ('S8-inherit-null-alias',
          {MAIN: T3 + '    $field-type-aliases: {x: null}\n    data-stream-types: {d: {event-record-types: {e: '
-                     '{payload-field-type: {$inherit: x}}}}}\n'}, 3, 'S8-_apply_ft_inheritance'),
+                     '{payload-field-type: {$inherit: x}}}}}\n'}, 3, '=cpe'),
         ('S8-inherit-true-alias',
          {MAIN: T3 + '    $field-type-aliases: {x: true}\n    data-stream-types: {d: {event-record-types: {e: '
-                     '{payload-field-type: {$inherit: x}}}}}\n'}, 3, 'S8-_resolve_ft_alias'),
+                     '{payload-field-type: {$inherit: x}}}}}\n'}, 3, '=cpe'),
         ('S8-v2-fields-null-with-aliases',
          {MAIN: "version: '2.2'\nmetadata:\n  type-aliases: {}\n  trace: {byte-order: le}\n  streams:\n    s:\n"
                 "      packet-context-type: {class: struct, fields: null}\n      events: {e: {}}\n"}, 2,
-         'S8-_struct_ft_member_fts_iter'),
+         '=nodev'),
         ('S8-v2-packet-context-fields-null',
          {MAIN: "version: '2.2'\nmetadata:\n  trace: {byte-order: le}\n  streams:\n    s:\n"
-                "      packet-context-type: {class: struct, fields: null}\n      events: {e: {}}\n"}, 2, 'S8-_conv_dst_node'),
-        ('S8-v2-event-header-without-fields', {MAIN: V2 + '      event-header-type: {class: struct}\n' + V2EV}, 2, 'S8-_conv_dst_node'),
+                "      packet-context-type: {class: struct, fields: null}\n      events: {e: {}}\n"}, 2, '=nodev'),
+        ('S8-v2-event-header-without-fields', {MAIN: V2 + '      event-header-type: {class: struct}\n' + V2EV}, 2, '=nodev'),
         ('S8-v2-payload-fields-null', {MAIN: V2 + '      events: {e: {payload-type: {class: struct, fields: null}}}\n'}, 2,
-         'S8-_conv_struct_ft_node'),
+         '=nodev'),
         ('S8-v2-packet-header-without-fields',
          {MAIN: V2.replace('trace: {byte-order: le}', 'trace: {byte-order: le, packet-header-type: {class: struct}}') + V2EV}, 2,
-         'S8-v3_features_node_from_v2_ft_node'),
+         '=nodev'),
         ('S18-size-float', {MAIN: H + mini3 + '                - a: {field-type: {class: uint, size: 8.0}}\n'}, 3,
-         'S19-integral-float-does-not-compile'),
+         '=cpe'),
         ('S18-alignment-float', {MAIN: H + mini3 + '                - a: {field-type: {class: uint, size: 8, alignment: 8.0}}\n'}, 3,
-         'S19-integral-float-TypeError-_validate_alignment'),
+         '=cpe'),
         ('S18-enum-mapping-float',
          {MAIN: H + mini3 + '                - a: {field-type: {class: uenum, size: 8, mappings: {A: [1.0]}}}\n'}, 3,
-         'S19-integral-float-AssertionError-_create_enum_ft'),
+         '=cpe'),
         ('S18-type-id-size-float',
          {MAIN: T3 + '    data-stream-types:\n      d:\n        $features: {event-record: {type-id-field-type: {class: uint, size: 8.0}}}\n'
-                     '        event-record-types: {e: ' + PL + '}\n'}, 3, 'S19-integral-float-TypeError-_create_dst'),
+                     '        event-record-types: {e: ' + PL + '}\n'}, 3, '=cpe'),
         ('S18-dst-id-size-float',
          {MAIN: T3 + '    $features: {data-stream-type-id-field-type: {class: uint, size: 8.0}}\n'
                      '    data-stream-types: {d: {event-record-types: {e: ' + PL + '}}}\n'}, 3,
-         'S19-integral-float-TypeError-_create_trace_type'),
+         '=cpe'),
         ('S18-v2-size-float', {MAIN: mini2 + '              a: {class: int, size: 8.0}\n'}, 2, None),   # accepted, `size = 8.0;` in the metadata
         ('S18-v2-enum-value-float',
          {MAIN: mini2 + '              a: {class: enum, value-type: {class: int, size: 8}, members: [{label: A, value: 1.0}]}\n'}, 2,
-         'S19-integral-float-AssertionError-_conv_enum_ft_node'),
+         '=cpe'),
         ('member-name-dash', {MAIN: H + mini3 + '                - a-b: {field-type: {class: uint, size: 8}}\n'}, 3,
          '=cpe'),
         ('member-name-dash-unvalidated', {MAIN: H + mini3 + '                - a-b: 5\n'}, 3, '=cpe'),
         ('member-keyword-int', {MAIN: H + mini3 + '                - int: {field-type: {class: uint, size: 8}}\n'}, 3, None),
-        ('yaml-complex-key', {MAIN: '[a]: 1\n'}, 2, 'NEW-TypeError-_yaml_load'),
-        ('yaml-complex-key-v3', {MAIN: H + '{a: 1}: 1\n'}, 3, 'NEW-TypeError-_yaml_load'),
-        ('yaml-map-tag-on-scalar', {MAIN: 'a: !!map b\n'}, 2, 'NEW-ValueError-_yaml_load'),
-        ('yaml-int-tag-on-word', {MAIN: 'a: !!int b\n'}, 2, 'NEW-ValueError-_yaml_load'),
-        ('yaml-invalid-utf8', {MAIN: b'a: \xff\n'}, 2, 'NEW-UnicodeDecodeError-_yaml_load'),
+        ('yaml-complex-key', {MAIN: '[a]: 1\n'}, 2, '=cpe'),
+        ('yaml-complex-key-v3', {MAIN: H + '{a: 1}: 1\n'}, 3, '=cpe'),
+        ('yaml-map-tag-on-scalar', {MAIN: 'a: !!map b\n'}, 2, '=cpe'),
+        ('yaml-int-tag-on-word', {MAIN: 'a: !!int b\n'}, 2, '=cpe'),
+        ('yaml-invalid-utf8', {MAIN: b'a: \xff\n'}, 2, '=cpe'),
         # --- special documents
         ('empty-v3-tag-only', {MAIN: H}, 3, None),
         ('v3-tag-scalar', {MAIN: H.rstrip('\n') + ' 5\n'}, 3, None),
@@ -718,10 +721,10 @@ def case_deviations(task, res):
         first = [l for l in outp.splitlines() if 'error' in l][:1]
         if a in HOLE_KEY:
             key = HOLE_KEY[a]
-        elif re.search(r"[\u2018'`]ts[\u2019'] undeclared", outp):
-            key = 'S6-timestamp-feature-without-clock-does-not-compile'
         elif res.get('odd_c_type'):
             key = None      # the user's own `$c-type` string is not a C type: no front end can know
+        elif re.search(r"[\u2018'`]ts[\u2019'] undeclared", outp):
+            key = 'S6-timestamp-feature-without-clock-does-not-compile'
         elif 'integer constant is too large' in outp:
             key = 'NEW-unbounded-integer-property-does-not-compile'
         elif 'empty initializer braces' in outp:
@@ -1001,6 +1004,12 @@ def run(ctx):
                                   {'name': t['name'], 'files': t['files'], 'outcome': corpus_report[t['name']],
                                    'site': ff.get('site') or ff.get('inner')})
                     continue
+            elif t['expect'] == '=nodev':
+                # a defect repaired in /repo whose document may now be valid: accepted (and compiling) or
+                # refused with a configuration error, never a deviation
+                if cd or oc not in ('ok', 'cpe'):
+                    ctx.violation('regression of a repaired defect: corpus document %s must load or be refused with a configuration error, got %s' % (
+                        t['name'], corpus_report[t['name']]), {'name': t['name'], 'files': t['files'], 'outcome': corpus_report[t['name']]})
             elif t['expect'].startswith('=cpe'):
                 # a defect repaired in /repo: the document must now be refused with a configuration error
                 bad = oc != 'cpe' or (t['expect'] == '=cpe-all' and any(
